@@ -13,6 +13,10 @@ pub mod c04;
 #[cfg(kani)]
 pub mod c16;
 #[cfg(kani)]
+pub mod c16b;
+#[cfg(kani)]
+pub mod c03;
+#[cfg(kani)]
 pub mod c08;
 #[cfg(kani)]
 pub mod c06;
